@@ -440,3 +440,16 @@ _c14_base5 = contracts
 
 def contracts():
     return _c14_base5() + [param_getitem_contract()]
+
+
+# the class-level route: a plain value assigned on a class (declaring or inheriting) reaches the
+# Parameter's __set__ — and with it the read-only guard — exactly once, whatever the value is, also the
+# very object the class already shows (verified for C13)
+_c14_base_cls = contracts
+
+
+def contracts():
+    from contracts import c13 as _c13
+    c = _c13.metaclass_setattr_contract()
+    c.prop = PROP
+    return _c14_base_cls() + [c]
